@@ -231,9 +231,9 @@ Proof.
       destruct (elab_write_struct gp next G0 Hg2 Hn (length G) Gb r1 G2) as [E1 B1]; [exact E0b|lia|exact H1|].
       rewrite V_emit. simpl. fold (V G2 cur) (V G2 r1).
       rewrite (IH (length G) Gb r1 G2); [|exact E0b|lia|exact H1].
-      unfold Gb at 2. rewrite V_emit. simpl. fold (V G cur).
+      unfold Gb at 1. rewrite V_emit. simpl. fold (V G cur).
       rewrite (V_ext inp G G2 cur); [reflexivity | eapply ext_trans; [exact EGb|exact E1] | exact Hc]. }
-    inversion Hsg; subst; simpl.
+    inversion Hsg; subst; cbn [write_path].
     + apply Hsta; reflexivity.
     + apply Hsta; reflexivity.
     + eapply Hdyn; eauto.
